@@ -418,6 +418,37 @@ def S_column_object(Q, n):
     return Q.create_table("t").columns(r["Column"](n, "INT", nullable=False, default=1))
 
 
+# statements started from the shortcuts of a table bound to the dialect class (Q.Table / Q.Tables / Table(query_cls=Q))
+def S_shortcut_select(Q, n):
+    t = Q.Table(n)
+    return t.select(t.a, "b").where(t.a == 1)
+
+
+def S_shortcut_update(Q, n):
+    t = Q.Table(n)
+    return t.update().set(t.a, 1).where(t.b == 2)
+
+
+def S_shortcut_insert(Q, n):
+    t = Q.Table(n, schema="sch")
+    return t.insert(1, 2)
+
+
+def S_shortcut_insert_columns(Q, n):
+    t = Q.Tables("t")[0]
+    return t.insert(1, 2).columns(n, "b")
+
+
+def S_shortcut_insert_query_cls(Q, n):
+    t = _r()["Table"](n, query_cls=Q)
+    return t.insert(1, 2)
+
+
+def S_shortcut_update_column(Q, n):
+    t = Q.Tables(("t", "al"))[0]
+    return t.update().set(n, 1)
+
+
 SITES = {k[2:].replace("_", "-"): v for k, v in list(globals().items()) if k.startswith("S_")}
 EXPECT_IDENTS = {
     "create-case-twins": lambda n: ["t", n, n.swapcase(), "b", n.swapcase(), "b", n],
